@@ -5,14 +5,18 @@ PROP = dict(
     lean_module="AbraProofs.Properties.C22",
     required_theorems=["C22_subst_update", "C22_subst_update_body", "C22_impl_ty_extract", "C22_impl_selected",
                        "C22_impl_selected_unique", "C22_dispatch", "C22_method_by_name", "C22_label_injective",
-                       "C22_label_stable"],
+                       "C22_label_stable", "C22_label_per_instantiation"],
     harness_bin="c22",
     mismatch_is_violation=True,
     rule="(quick) 160 / (thorough) 3000 seeded programs: a two-method user interface implemented for a seeded subset (3-12) of "
          "{int, float, string, bool, (int, float), (int, int, string), array<T>, two structs, generic struct Bx<T>, enum, option<T>} "
          "in seeded declaration order with seeded method order per implementation; 10-17 calls per program over 8 call forms "
          "(qualified, dot, generic with one / two type parameters, nested generic, generic over array<T>, generic over a tuple) at "
-         "seeded concrete instances (incl. array<int>/array<string>/array<struct>, Bx<int>/Bx<struct>); every third program adds "
+         "seeded concrete instances (incl. array<int>/array<string>/array<struct>, Bx<int>/Bx<struct>); 3-5 times per program a "
+         "generic function containing a lambda or a task is called at 2-3 different implementations: capture sets {only the "
+         "generic value, only a concrete value, generic + concrete string, generic + concrete int, generic + concrete through "
+         "a nested lambda, a lambda typed by the type parameter capturing a concrete value, a lambda calling such a lambda, a "
+         "task with generic + concrete captures, a field of a generic struct + concrete}; every third program adds "
          "user implementations of Equal, Ord, ToString, Clone (operators and generic functions over them, also at int/float where "
          "the prelude implementation must run), every sixth Num (+ - * / on the user type), every fourth Index and "
          "Iterable/Iterator on a user container; each method returns or prints a tag, so the output names the code that ran; "
